@@ -327,7 +327,7 @@ theorem pvNode_depth1 [DecidableEq M] (cfg : SOpts) (hord : OrderOK o) {cpv : Pv
           exact hfin a (hI.1 (hcov c' ⟨m, hm, hc'⟩))
 
 /-- every `pvSearch` of the model evaluates at depth 0 -/
-theorem search_leaf [DecidableEq M] (cfg : SOpts) (n : Nat) (c : P) (ply : Nat) (pv : List M) (a b : Int) (s : Eng M) :
+theorem search_leaf_pv [DecidableEq M] (cfg : SOpts) (n : Nat) (c : P) (ply : Nat) (pv : List M) (a b : Int) (s : Eng M) :
     (search g cfg o n).1 c ply 0 pv a b s = .ok (leaf g c (g.over c) s) := by
   cases n <;> simp [search, pvNode] <;> rfl
 
@@ -340,7 +340,7 @@ theorem pvSearch_depth1 [DecidableEq M] (cfg : SOpts) (hord : OrderOK o)
   have h15 : Facts.maxDepth - 0 = 14 + 1 := rfl
   unfold pvSearch
   rw [h15]
-  exact pvNode_depth1 cfg hord (search_leaf cfg 14) p hgen hmove α β hev 0 pv s
+  exact pvNode_depth1 cfg hord (search_leaf_pv cfg 14) p hgen hmove α β hev 0 pv s
 
 end depth1
 
